@@ -75,6 +75,17 @@ func classLine(class string, rng *rand.Rand) string {
 			ls = append(ls, validLine(map[string]any{"type": "new_epic", "id": fmt.Sprintf("i%d", k), "epic": "", "state": "todo", "title": fmt.Sprintf("tie %d", k), "body": "", "ts": float64(60)}))
 		}
 		return strings.Join(ls, "\n")
+	case "many_edges":
+		// valid lines: several tasks that i1 depends on (two, so that a rendering which names the
+		// blockers has an order to get wrong) and several that depend on it
+		var ls []string
+		for k := 30; k < 35; k++ {
+			ls = append(ls, validLine(map[string]any{"type": "new_task", "id": fmt.Sprintf("i%d", k), "epic": "", "state": "todo", "title": fmt.Sprintf("dep %d", k), "body": "", "ts": float64(k)}))
+		}
+		for _, e := range [][2]string{{"i1", "i30"}, {"i1", "i31"}, {"i32", "i1"}, {"i33", "i1"}, {"i34", "i1"}, {"i34", "i30"}, {"i34", "i31"}, {"i34", "i32"}} {
+			ls = append(ls, validLine(map[string]any{"type": "link", "from": e[0], "to": e[1], "ts": float64(0)}))
+		}
+		return strings.Join(ls, "\n")
 	case "dep_cycle":
 		// hand-merged link events that form a dependency cycle i1 -> i3 -> i1
 		return validLine(map[string]any{"type": "link", "from": "i1", "to": "i3", "ts": float64(0)}) + "\n" +
@@ -135,6 +146,14 @@ func (e *Env) runLineCase(c lineCase, idx int, seed int64) (*Obs, error) {
 		args = []string{"--json", "list", "--ready"}
 	case "show":
 		args = []string{"--json", "show", t1}
+	case "list_human":
+		args, jsonCmd = []string{"list"}, false
+	case "list_all_human":
+		args, jsonCmd = []string{"list", "--all"}, false
+	case "show_human":
+		args, jsonCmd = []string{"show", t1}, false
+	case "show_epic_human":
+		args, jsonCmd = []string{"show", craftID("i2")}, false
 	case "prune_dry":
 		args = []string{"--json", "prune"}
 	case "where":
@@ -159,14 +178,15 @@ func (e *Env) runLineCase(c lineCase, idx int, seed int64) (*Obs, error) {
 	case "prune":
 		args = []string{"--json", "prune", "--yes"}
 	}
-	readOnly := map[string]bool{"list": true, "list_epics": true, "list_ready": true, "show": true, "prune_dry": true, "where": true, "quickstart": true}[c.Cmd]
+	readOnly := map[string]bool{"list": true, "list_epics": true, "list_ready": true, "show": true, "prune_dry": true, "where": true, "quickstart": true,
+		"list_human": true, "list_all_human": true, "show_human": true, "show_epic_human": true}[c.Cmd]
 	before, _ := os.ReadFile(logPath)
 	r1 := st.runIn(st.Root, stdin, nil, 30*time.Second, args...)
 	after, _ := os.ReadFile(logPath)
 	same := true
 	if readOnly {
 		// same log, same output: repeat a few times (map iteration order varies between runs)
-		for k := 0; k < 4 && same; k++ {
+		for k := 0; k < 7 && same; k++ {
 			r2 := st.runIn(st.Root, stdin, nil, 30*time.Second, args...)
 			same = r2.Exit == r1.Exit && bytes.Equal(r2.Stdout, r1.Stdout) && bytes.Equal(r2.Stderr, r1.Stderr)
 		}
